@@ -15,9 +15,12 @@ LEVEL = "model_checking"
 
 RULE = ("Inputs: integer vectors; exhaustive pairs (x,y) of length <= 2 (quick) / <= 3 (thorough) over {-2..2} and exhaustive "
         "triples of length 1 / <= 2, each for Manhattan, Euclidean, Minkowski p=1..8, Hamming (float and integer vectors), f64 and f32; "
-        "seeded random lengths 1..30 with components up to 1000, power-of-two rescaling 2^-60..2^60, equal vectors, one differing "
+        "a length ladder 63..1025 around the powers of two plus 2049/3000/4097 and a single differing coordinate at every position of "
+        "65- and 129-vectors; seeded random lengths 1..30 with components up to 1000, power-of-two rescaling 2^-60..2^60, equal vectors, one differing "
         "coordinate, collinear triples, sparse vectors; Mahalanobis from every symmetric integer 2x2 matrix with entries <= 4, "
-        "identity of order 1..3, B*B^T 3x3 and from random integer data rows; length mismatches for every kind; plus every input "
+        "identity of order 1..3, B*B^T 3x3, the structured family A*D*A^T (A integer unit lower triangular, orders 3..5: exact zeros / "
+        "ties / negative candidates in the elimination) as covariance and as factorial-design data, random integer data rows, a sample "
+        "on the ndarray (row- and column-major) and nalgebra back ends; length mismatches for every kind; plus every input "
         "the TLC design model enumerated (REPLAY). One event = five calls d(x,y), d(y,x), d(x,x), d(y,z), d(x,z). "
         "An event is non-trivial when it is a successful Dist/Maha event with x, y, z pairwise different and length >= 2 "
         "(Maha: additionally a positive-definite non-diagonal covariance or full-rank data); distinct = distinct "
@@ -32,12 +35,14 @@ def key_of(e, clause):
     ev = e.get("ev")
     fl = "f64" if e.get("prec", 52) >= 50 else "f32"
     if ev == "Dist":
-        return "dist %s p=%d %s %s: %s" % (e["kind"], e["p"], fl, "rescaled" if e["e"] != 0 else "unscaled", clause)
+        return "dist %s p=%d %s %s%s: %s" % (e["kind"], e["p"], fl, "rescaled" if e["e"] != 0 else "unscaled",
+                                             " len>64" if len(e["x"]) > 64 else "", clause)
     if ev == "Mismatch":
         return "mismatch %s p=%d %s len %s vs %s: %s" % (e["kind"], e["p"], fl, "0" if not e["x"] else ">0",
                                                         "0" if not e["y"] else ">0", clause)
     if ev == "Maha":
-        return "maha %s order=%d %s: %s" % (e["mode"], len(e["mat"][0]), fl, clause)
+        be = e.get("backend", "dense")
+        return "maha %s order=%d %s%s: %s" % (e["mode"], len(e["mat"][0]), fl, "" if be == "dense" else " " + be, clause)
     if ev == "MahaMismatch":
         return "maha-mismatch order=%d %s: %s" % (len(e["mat"]), fl, clause)
     if ev == "Expect":
@@ -49,8 +54,9 @@ def what_of(e, clause):
     ev = e.get("ev")
     if ev in ("Dist", "Maha"):
         extra = ("mat=%s " % json.dumps(e["mat"])) if ev == "Maha" else ("kind=%s p=%d " % (e["kind"], e["p"]))
+        vec = lambda v: v if len(v) <= 40 else "(len %d, see replay file)" % len(v)  # noqa
         return "%s fails: %sx=%s y=%s z=%s e=%d -> status=%s xy=%s" % (
-            clause, extra, e["x"], e["y"], e["z"], e["e"], e["status"], json.dumps(e["xy"]))
+            clause, extra, vec(e["x"]), vec(e["y"]), vec(e["z"]), e["e"], e["status"], json.dumps(e["xy"]))
     return "%s fails: %s" % (clause, json.dumps(e)[:400])
 
 
@@ -125,8 +131,11 @@ def run(ctx):
     # ---- impl -> spec
     skipped = 0
     for mode, must in (("small", DIST_HITS), ("random", DIST_HITS + ("Scaled",)),
+                       ("ladder", ("LongVector", "Dist_euc", "Dist_man", "Dist_mink", "Dist_ham", "F32", "Scaled")),
                        ("mismatch", ("Mismatch", "MahaMismatch")),
-                       ("maha", ("Maha_cov", "Maha_data", "Maha_identity", "Maha_unconstrained", "Maha_f32"))):
+                       ("maha", ("Maha_cov", "Maha_data", "Maha_identity", "Maha_unconstrained", "Maha_f32")),
+                       ("maha-structured", ("Maha_cov", "Maha_data", "Maha_order45", "Maha_f32")),
+                       ("maha-backends", ("Maha_cov", "Maha_data", "Maha_f32"))):
         f = ctx.path("c17-%s.ndjson" % mode)
         p = ctx.harness("gen-" + mode, f)
         try:
@@ -158,7 +167,7 @@ def run(ctx):
     ctx.extra["not_covered"] = [
         "accuracy finer than the recorded projections (about 2^-10 .. 2^-20 relative; exact integers for f64 power sums)",
         "overflow / underflow of intermediate powers at extreme magnitudes (rescaling is limited to 2^-60..2^60 for f64, 2^-8..2^8 for f32)",
-        "Mahalanobis of order > 3 and covariance matrices with non-integer entries; ill-conditioned covariances in f32 "
+        "Mahalanobis of order > 5 and covariance matrices with non-integer entries; ill-conditioned covariances in f32 "
         "where the derived rounding allowance exceeds the integer range are counted as skipped",
         "Minkowski order p > 8; the design model covers p <= 4"]
     ctx.assumptions = [
